@@ -19,3 +19,33 @@ Theorem C17_validation : forall f, validate_extra_data f = Ok tt ->
    unle (take 2 (drop 2 (w_extra f))) <= len (w_extra f) - 4).
 Proof. intros f H. split; [now apply extra_validation_len|now apply extra_validation_first]. Qed.
 Print Assumptions C17_validation.
+
+(* ---------- as the READER sees it.
+   start_file_aligned for a stored, unencrypted, non-large entry on a well-behaved sink (anything written before: b):
+   the call succeeds and the sink is  b ++ local header ++ name ++ extra  where the header's length fields are the
+   true ones (after the writer patched the extra length), so that the reader's find_content on a record pointing at
+   this header computes the data offset |b| + 30 + |name| + |extra| -- and that offset is a multiple of the
+   alignment (for alignments > 1 up to 32768; 0 and 1 request nothing).  The padding is one well-formed record of the
+   writer's own padding id, accepted by its own validation. *)
+From ZipV Require Import Gen.CompressionGen Proofs.Zip64Proofs Proofs.WriterIdeal Proofs.WriterEntry Proofs.EntryRead Proofs.AlignedEntry.
+Theorem C17_reader_sees_aligned : forall enc crc s s1 b name o align hdr rest g,
+  finish_file enc crc s = (s1, Ok tt) -> ws_inner s1 = WStorer (at_end b) -> ws_central_only s1 = false ->
+  len name <= 65535 -> stored_opts o -> 1 < align -> align <= 32768 ->
+  local_header_chunks (mk_wfile name (with_perm o 420 32768) None (len b)) = Ok hdr ->
+  f_header_start g = len b -> len b + 30 + 65535 + 65535 < 2 ^ 64 ->
+  exists s' v sink ds t,
+    start_file_aligned enc crc s name o align = (s', Ok v) /\
+    ws_inner s' = WStorer (at_end sink) /\
+    find_content (sink ++ rest) g = Ok (ds, t) /\ ds mod align = 0 /\ ds = len sink.
+Proof.
+  intros enc crc s s1 b name o align hdr rest g Hff Hin Hco Hn Ho Ha1 Ha2 Hh Hhs Hfit.
+  destruct (aligned_reader_view enc crc s s1 b name o align hdr Hff Hin Hco Hn Ho Ha2 Hh) as (s' & v & lh & extra & Hsa & Hins & Hok & Hel & Hal).
+  exists s', v, (b ++ lh ++ name ++ extra).
+  pose proof (find_content_rendered b lh name extra [] rest g Hok Hn Hel Hhs) as Hfc.
+  rewrite app_nil_l in Hfc.
+  replace ((b ++ lh ++ name ++ extra) ++ rest) with (b ++ lh ++ name ++ extra ++ rest) by (rewrite <- !app_assoc; reflexivity).
+  eexists. eexists. split; [exact Hsa|]. split; [exact Hins|].
+  split; [apply Hfc; lia|]. split; [apply Hal; exact Ha1|].
+  destruct Hok as (mid & Hm & ->). rewrite !len_app, !len_le, Hm. cbn [N.of_nat Pos.of_succ_nat Pos.succ]. lia.
+Qed.
+Print Assumptions C17_reader_sees_aligned.
